@@ -1,7 +1,70 @@
 """Round 2 - utilities (jsonargparse/_util.py), logger settings (jsonargparse/_common.py), help-only helpers of the type-hint action
 (jsonargparse/_typehints.py) and the usage formatter (jsonargparse/_formatters.py).
 
-(under construction)
+Objects (parsers, actions, loggers, modules, classes, functions) are records; texts (messages, names, paths, widths, stack levels) are symbolic
+(ALL strings / integers) unless said otherwise; *shapes* (which kind of value, which hint, which pre-state) are enumerated exhaustively.
+
+C14 ('a callable returning one')
+  class_from_function          return class given / annotated / string annotation (resolves, resolves to a ForwardRef, unresolvable) / missing  x  name given / None / ''  x
+                               what the caller's module already holds under that name  x  caller module known / unknown:
+                               the class built is a subclass of the class the function returns (first base) and of ClassFromFunctionBase; *constructing it (its real
+                               __new__ is run) calls the function exactly once with exactly the arguments given - the class itself not passed - and returns its result*;
+                               wrapped_function, __name__/__qualname__ (default: qualified name, dots -> '__', + '_class'), __doc__; registered in the caller's module
+                               (jsonargparse._util when the caller has none) under its name and naming that module (importable by its own path); asked again for the same
+                               function / return class / name: the class made earlier, nothing written; anything else under that name, no return class: ValueError
+                               (chained to its cause) with every module, the function and the return class untouched
+  class_from_function.<locals>.__new__   one call, positional arguments in order, keywords by name, no class argument; the result is the function's; its error passes unchanged
+  register_unresolvable_import_paths     exactly the (builtin) functions of the modules given with __module__ None and a name are registered under <module>.<name> (ALL names);
+                               nothing else (object with a module, nameless, constant, instance); earlier entries stay; modules only read; never raises
+C12 (auto_cli / capture)
+  capture_parser               function shapes (calls parse_args, on two parsers in turn, never, fails first) x capture already on/off x 0-2 positional, 0/2 keyword arguments:
+                               the function runs exactly once with exactly the arguments given and *with capture on*; the result is the very parser whose parse_args was called
+                               first, nothing after it runs; no parse_args call => CaptureParserException carrying None; the function's own error passes unchanged;
+                               C09: on every exit the capture flag holds what it held before
+  return_parser_if_captured    raises the capture exception, built for the very parser, exactly when capture is on; parser and flag only read
+  CaptureParserException.__init__   carries the parser given; empty message for a parser, the explanatory one for None; nothing else written
+  typehint_metavar             24 hints: the metavar spells the accepted values (bool, Optional[bool], Literal with None as null, Enum names, Optional[Enum] + null, [ITEM,...] for
+                               tuples / sets, None otherwise), Optional in either member order; hint only read; *never raises* -
+                               REFUTED on the shipped code for Union[None, <Enum>] (AttributeError: NoneType has no __members__; add_argument / auto_cli crash): see the report
+  hash_item                    own hash; dict / list by the hash of the compact dump; hash of repr when neither works; never raises; item not modified
+C09 (logger settings; help leaves no trace)
+  LoggerProperty.logger [setter+getter]   16 kinds of setting x 8 kinds of level x JSONARGPARSE_DEBUG x reconplogger x default logger already enabled by another parser, real
+                               parse_logger and setup_default_logger interpreted inside (ALL logger names): accepted => a documented kind (bool, name, dict of name/level,
+                               Logger object; None deprecated = False; a falsy setting becomes {'level': 'DEBUG'} in debug mode); False => the module's null logger, unchanged;
+                               a Logger object => used as given, not reconfigured; True / dict without name with reconplogger => reconplogger's logger (DEBUG iff debug);
+                               otherwise the logger registered under exactly the name asked (the class's name by default), looked up once, parent None, >= 1 handler (a new
+                               stream handler only when it had none), every handler at the level asked (WARNING by default); *every logger registered under another name, the
+                               null logger, a Logger object are left as they were*; only this parser's _logger is written, another parser keeps its logger object, the dict
+                               handed in is not modified; refused => ValueError (wrong kind, unknown dict key, level not one of the five names) with *nothing stored, no logger
+                               looked up, created or reconfigured, reconplogger not set up*; the getter reads the stored logger back
+  parse_logger                 the same clauses for ALL caller names (no None / debug replacement: those are the setter's)
+  setup_default_logger         ALL names / callers x 5 levels: the logger registered under the name asked, configured as above; others untouched; data not modified
+  LoggerProperty.__init__      the setting goes through the validating property once (False when omitted), nothing else assigned; then the next initialiser once with exactly
+                               the other arguments (logger not forwarded); a refused setting: the setter's ValueError unchanged, the next initialiser has not run
+  get_argument_group_class     add_argument not overridden / overridden (source fine, unavailable, does not compile, fails when executed): a group class built from the method's
+                               own source (ALL sources) on ArgumentGroup in a *copy* of the method's globals, attributed to the parser class's module and registered there under
+                               its name only; any failure => ArgumentGroup, debug-logged once, module untouched; never raises; parser / classes only read
+  DefaultHelpFormatter._format_usage   argparse's usage once with the arguments given; no parser / nothing to add => unchanged; optionals-as-positionals: nested [a [b]] in
+                               declaration order (ALL names), on the last line iff it fits (ALL widths) else on its own line with that line's indent, then the note; otherwise a
+                               required option without default loses its brackets, every other keeps them; formatter, parser, actions only read; never raises
+  ActionTypeHint.extra_help    17 hints: the subclasses listed are those of the class the hint accepts (Optional either order, return class of a callable, Type[..]), asked once,
+                               ', known subclasses: ' + paths joined by ', ' (ALL paths), '' otherwise; action and hint only read; never raises
+  ActionTypeHint.completer     13 hints x choices x COMP_TYPE x outcome of the type check: choices as text; true/false(/null); Enum names(/null), Optional in either order; null +
+                               sorted file completions; else one hint line 'value already valid' exactly for a non-blank prefix that passes the check ('not yet valid' for a
+                               failed check: reported, never raised); action, hint, choices only read
+C03
+  warning                      ALL message texts, ALL stack levels: never raises; exactly one warning, category asked (JsonargparseWarning by default), stacklevel one more than given,
+                               text = the message dedented, wrapped at 110, stripped, indented by four blanks, between two line breaks
+
+Already under contract elsewhere (skipped): get_import_path / import_object (import_paths.py), object_path_serializer / get_module_var_path (r2_regtypes.py),
+add_yaml_comments.<locals>.set_comments (interpreted inside r2_coremisc's add_yaml_comments unit), debug_mode_active (r2_coremisc.py).
+
+Observations (real behaviour, reproduced natively, no listed property needs the clause - not kept as clauses; details in the builder's report):
+  * two parsers that enable the *default* logger share logging.getLogger(<class name>): parser B's logger={'level': 'DEBUG'} turns parser A's (logger=True) handlers to DEBUG
+  * logger={'level': ['DEBUG']} -> TypeError (unhashable), logger={'name': 3} -> TypeError from logging; with JSONARGPARSE_DEBUG set the invalid settings 0 / [] are accepted
+  * with reconplogger 5.0.0 installed (allowed by 'reconplogger>=4.4.0') and JSONARGPARSE_DEBUG set, every ArgumentParser() fails: logger_setup() got an unexpected keyword 'reload'
+  * register_unresolvable_import_paths tests type(val) against typing.Type: a class with __module__ None is never registered
+  * _format_usage interpolates the key into a regular expression unescaped: with --a_b (default) declared before the required --a.b, print_usage shows --a_b as required
 """
 import z3
 
@@ -644,8 +707,692 @@ def logger_property_unit(prop):
     return Unit(prop, COMMON + "LoggerProperty.logger", lp_setup, lp_post, lp_raises, label="setter+getter", expect_cover=("return", "raise:ValueError"), max_paths=20000, trusted=LOG_TRUSTED)
 
 
+# ---------------------------------------------------------------------------------------------- parse_logger / setup_default_logger / LoggerProperty.__init__
+def pl_setup(ctx):
+    kind = LOGGER_VALUES[ctx.choose(len(LOGGER_VALUES), "logger")]
+    class_logger_exists = ctx.choose(2, "a-logger-named-like-the-caller-exists") == 1
+    debug = ctx.choose(2, "JSONARGPARSE_DEBUG-set") == 1
+    reconp = ctx.choose(2, "reconplogger-installed") == 1
+    w = LogWorld(ctx, class_logger_exists)
+    value, name, level = _logger_value(ctx, w, kind)
+    caller = z3.String("caller")  # ALL caller names (the class name of whatever owns the property)
+    ctx.classes.add("Logger", ["Filterer"])
+    return Setup(env={"logger": value, "caller": caller}, calls=w.calls(debug, reconp), consts=w.consts(reconp), inline={"setup_default_logger": "jsonargparse._common:setup_default_logger"},
+                 data=dict(kind=kind, world=w, debug=debug, reconp=reconp, class_logger_exists=class_logger_exists, value=value, name=name, level=level, class_name=caller,
+                           value_snap=dict(value) if isinstance(value, dict) else None), watch={"caller": caller})
+
+
+def _pl_effective(d):
+    return ("None(not a setting here)" if d["kind"] == "None" else d["kind"]), d["name"], d["level"]
+
+
+def pl_post(ctx, st, result):
+    d = st.data
+    tag = _lp_tag(d)
+    _logger_post(ctx, d, result, tag, _pl_effective(d))
+    ctx.oblige("frame", "the-setting-handed-in-is-not-modified" + tag, d["value_snap"] is None or (set(d["value"]) == set(d["value_snap"]) and all(d["value"][k] is d["value_snap"][k] for k in d["value"])))
+
+
+def pl_raises(ctx, st, exc):
+    d = st.data
+    tag = _lp_tag(d)
+    kind, name, level = _pl_effective(d)
+    w = d["world"]
+    ctx.oblige("raises", f"refused=>ValueError(got {exc.cls}@{exc.origin})" + tag, exc.cls == "ValueError")
+    ctx.oblige("raises", "refused=>not-a-documented-kind-of-setting,or-a-dict-key-other-than-name/level,or-a-level-that-is-not-one-of-the-five-level-names" + tag, not _valid_kind(kind) or not _level_ok(level))
+    ctx.oblige("frame", "C09:refused=>no-logger-was-looked-up,created-or-reconfigured,reconplogger-not-set-up" + tag, not w.changed() and not w.asked and not w.new and not w.reconp_calls and not w.made_handlers)
+
+
+def parse_logger_unit(prop):
+    return Unit(prop, COMMON + "parse_logger", pl_setup, pl_post, pl_raises, expect_cover=("return", "raise:ValueError"), max_paths=20000, trusted=LOG_TRUSTED)
+
+
+SDL_DATA = ["name(str)", "dict(name,level)", "dict(level)", "dict()", "True"]
+
+
+def sdl_setup(ctx):
+    kind = SDL_DATA[ctx.choose(len(SDL_DATA), "data")]
+    lv = sorted(LEVELS)[ctx.choose(5, "level")]
+    class_logger_exists = ctx.choose(2, "a-logger-named-like-the-caller-exists") == 1
+    w = LogWorld(ctx, class_logger_exists)
+    name = z3.String("logger-name")
+    data = {"name(str)": name, "dict(name,level)": {"name": name, "level": "INFO"}, "dict(level)": {"level": "INFO"}, "dict()": {}, "True": True}[kind]
+    caller = z3.String("caller")
+    return Setup(env={"data": data, "level": lv, "caller": caller}, calls=w.calls(False, False), consts=w.consts(False),
+                 data=dict(kind=kind, world=w, debug=False, reconp=False, class_logger_exists=class_logger_exists, value=data, name=name if "name" in kind else None, level=lv, class_name=caller,
+                           value_snap=dict(data) if isinstance(data, dict) else None), watch={"caller": caller, "name": name})
+
+
+def sdl_post(ctx, st, result):
+    d = st.data
+    tag = f"[{d['kind']},level={d['level']},a-logger-named-like-the-caller-exists={d['class_logger_exists']}]"
+    _logger_post(ctx, d, result, tag, (d["kind"], d["name"], d["level"]))  # (the level is the argument, not the one inside the dict: parse_logger has read and checked it)
+    ctx.oblige("frame", "the-data-handed-in-is-not-modified" + tag, d["value_snap"] is None or (set(d["value"]) == set(d["value_snap"]) and all(d["value"][k] is d["value_snap"][k] for k in d["value"])))
+
+
+def setup_default_logger_unit(prop):
+    return Unit(prop, COMMON + "setup_default_logger", sdl_setup, sdl_post, _no_exc, max_paths=20000, trusted=LOG_TRUSTED[:2] + ["precondition (parse_logger's check): level is one of the five level names"])
+
+
+def lpi_setup(ctx):
+    given = ["logger-omitted", "logger-given", "logger-given-and-refused"][ctx.choose(3, "logger")]
+    n = ctx.choose(3, "positional-arguments")
+    kw = ctx.choose(2, "keyword-arguments") == 1
+    value = Rec("a logger setting")
+    args = tuple([z3.String("a0"), z3.Int("a1")][:n])
+    kwargs = {"prog": z3.String("prog"), "env_prefix": z3.Bool("env_prefix")} if kw else {}
+    log = []
+
+    def set_attr(c, s_, a, k):
+        log.append(("set", a[0], a[1]))
+        if a[0] == "logger" and given == "logger-given-and-refused":
+            raise PyRaise(ExcVal("ValueError", ("invalid logger",), origin="logger-setter"))  # contract of the property's setter (its own unit)
+        if a[0] != "logger":
+            s_.attrs[a[0]] = a[1]
+
+    self = Rec("ArgumentParser", attrs={}, methods={"__setattr__": set_attr})
+    calls = {"super": lambda c, a, k: Rec("super()", methods={"__init__": lambda c2, s2, a2, k2: log.append(("base-init", tuple(a2), dict(k2)))})}
+    env = {"self": self, "args": args, "kwargs": kwargs}
+    if given != "logger-omitted":
+        env["logger"] = value
+    return Setup(env=env, calls=calls, data=dict(given=given, value=value, args=args, kwargs=kwargs, log=log, self_=self))
+
+
+def _lpi_sets(d):
+    return [e for e in d["log"] if e[0] == "set"]
+
+
+def lpi_post(ctx, st, result):
+    d = st.data
+    tag = f"[{d['given']},{len(d['args'])}+{len(d['kwargs'])} arguments]"
+    sets = _lpi_sets(d)
+    want = False if d["given"] == "logger-omitted" else d["value"]
+    ctx.oblige("post", "the-setting-goes-through-the-validating-property,once,with-the-value-given(False=disabled when omitted);nothing-else-is-assigned" + tag,
+               len(sets) == 1 and sets[0][1] == "logger" and sets[0][2] is want and not d["self_"].attrs)
+    base = [e for e in d["log"] if e[0] == "base-init"]
+    ok = len(base) == 1 and len(base[0][1]) == len(d["args"]) and all(x is y for x, y in zip(base[0][1], d["args"])) and set(base[0][2]) == set(d["kwargs"]) and all(base[0][2][k] is d["kwargs"][k] for k in d["kwargs"])
+    ctx.oblige("post", "the-next-initialiser-runs-once-with-exactly-the-other-arguments(the logger setting is not forwarded)" + tag, ok and d["given"] != "logger-given-and-refused")
+
+
+def lpi_raises(ctx, st, exc):
+    d = st.data
+    tag = f"[{d['given']},{len(d['args'])}+{len(d['kwargs'])} arguments]"
+    ctx.oblige("raises", f"only-the-setter's-ValueError,unchanged;then-the-next-initialiser-has-not-run-and-nothing-is-stored(got {exc.cls}@{exc.origin})" + tag,
+               d["given"] == "logger-given-and-refused" and exc.origin == "logger-setter" and not [e for e in d["log"] if e[0] == "base-init"] and not d["self_"].attrs and len(_lpi_sets(d)) == 1)
+
+
+def logger_property_init_unit(prop):
+    return Unit(prop, COMMON + "LoggerProperty.__init__", lpi_setup, lpi_post, lpi_raises, expect_cover=("return", "raise:ValueError"),
+                trusted=["assigning self.logger runs the property's setter (its own unit: stores a Logger or raises ValueError with nothing stored)", "super().__init__ is the next initialiser of the class (argparse's)"])
+
+
+# ================================================================================================ warning
+TW_DEDENT = z3.Function("textwrap.dedent", z3.StringSort(), z3.StringSort())
+TW_FILL = z3.Function("textwrap.fill", z3.StringSort(), z3.IntSort(), z3.StringSort())
+TW_INDENT = z3.Function("textwrap.indent", z3.StringSort(), z3.StringSort(), z3.StringSort())
+PY_STRIP = z3.Function("py.str.strip", z3.StringSort(), z3.StringSort())
+
+
+def _is_text(v):
+    return isinstance(v, str) or (is_z3(v) and v.sort() == z3.StringSort())
+
+
+def _tw(fn, n_text, total):
+    """A textwrap function: total on text, TypeError for anything else / a wrong number of arguments."""
+    def model(c, a, k):
+        if k or len(a) != total or not all(_is_text(x) for x in a[:n_text]) or not all(isinstance(x, int) or (is_z3(x) and x.sort() == z3.IntSort()) for x in a[n_text:]):
+            raise PyRaise(ExcVal("TypeError", origin=str(fn)))
+        return fn(*[lift(x) for x in a])
+    return model
+
+
+def wn_setup(ctx):
+    cat = ["category-omitted", "category-given"][ctx.choose(2, "category")]
+    sl = ["stacklevel-omitted", "stacklevel-given"][ctx.choose(2, "stacklevel")]
+    message = z3.String("message")  # ALL message texts (every call site passes a str)
+    category = ClassRef("JsonargparseDeprecationWarning")
+    stacklevel = z3.Int("stacklevel")
+    issued = []
+
+    def after(c, interp, stmt, env):
+        # warnings.warn is one of the calls the engine drops (assumption A7: it returns None): the statement is looked at here instead
+        import ast
+        if isinstance(stmt, ast.Expr) and isinstance(stmt.value, ast.Call) and ast.unparse(stmt.value.func) == "warnings.warn":
+            issued.append(interp._eval_args(stmt.value, env))
+
+    env = {"message": message}
+    if cat == "category-given":
+        env["category"] = category
+    if sl == "stacklevel-given":
+        env["stacklevel"] = stacklevel
+    calls = {"textwrap.dedent": _tw(TW_DEDENT, 1, 1), "textwrap.fill": _tw(TW_FILL, 1, 2), "textwrap.indent": _tw(TW_INDENT, 2, 2)}
+    return Setup(env=env, calls=calls, hooks={"after_stmt": after}, data=dict(cat=cat, sl=sl, message=message, category=category, stacklevel=stacklevel, issued=issued), watch={"message": message, "stacklevel": stacklevel})
+
+
+def wn_post(ctx, st, result):
+    d = st.data
+    tag = f"[{d['cat']},{d['sl']}]"
+    issued = d["issued"]
+    ctx.oblige("post", "exactly-one-warning-is-issued,and-nothing-is-returned" + tag, len(issued) == 1 and result is None)
+    if len(issued) != 1:
+        return
+    a, k = issued[0]
+    got_cat = k.get("category", a[1] if len(a) > 1 else None)
+    want_cat = d["category"].name if d["cat"] == "category-given" else "JsonargparseWarning"
+    ctx.oblige("post", "with-the-category-asked-for(JsonargparseWarning by default)" + tag, isinstance(got_cat, ClassRef) and got_cat.name == want_cat)
+    got_sl = k.get("stacklevel", a[2] if len(a) > 2 else 1)
+    want_sl = d["stacklevel"] + 1 if d["sl"] == "stacklevel-given" else z3.IntVal(2)
+    ctx.oblige("post", "attributed-to-the-caller-of-the-function-that-warns(stacklevel one more than given;1 by default: that function's caller)" + tag, lift(got_sl) == want_sl)
+    text = a[0] if a else k.get("message")
+    want = z3.Concat(S_("\n"), TW_INDENT(PY_STRIP(TW_FILL(TW_DEDENT(d["message"]), z3.IntVal(110))), S_("    ")), S_("\n"))
+    ctx.oblige("post", "the-text-is-the-message-given:dedented,wrapped-at-110-columns,stripped,indented-by-four-blanks,between-two-line-breaks" + tag, _is_text(text) and lift(text) == want, strings=True)
+
+
+def wn_raises(ctx, st, exc):
+    d = st.data
+    ctx.oblige("raises", f"C03:warning()-never-raises,whatever-the-message-text(got {exc.cls}@{exc.origin})[{d['cat']},{d['sl']}]", False)
+
+
+def warning_unit(prop):
+    return Unit(prop, UTIL + "warning", wn_setup, wn_post, wn_raises,
+                trusted=["textwrap.dedent / fill / indent are total on str (TypeError for anything else)", "warnings.warn returns None unless the process's warning filters turn the category into an error (python -W error: the user's choice)",
+                         "every call site passes a str (checked by reading the four call sites)"])
+
+
+# ================================================================================================ typehint_metavar / ActionTypeHint.extra_help (help only)
+def _universe():
+    """The hint universe of contracts/r2_typehelpers.py (typing objects and classes as records compared by identity), plus an Enum with members, a Literal
+    and the CPython rule that a class without an attribute raises AttributeError."""
+    from contracts.r2_typehelpers import U, hint_table
+    u = U()
+    u.Literal = Rec("typing.Literal")
+    u.frozenset, u.MutableSet = Rec("class frozenset", attrs={"__name__": "frozenset"}), Rec("typing.MutableSet")
+    u.Color.attrs["__members__"] = {"red": Rec("Color.red"), "blue": Rec("Color.blue")}
+
+    def missing(c, s_, a, k):
+        raise PyRaise(ExcVal("AttributeError", (f"type object {s_.attrs.get('__name__')!r} has no attribute {a[0]!r}",), origin=f"{s_.attrs.get('__name__')}.{a[0]}"))
+
+    for cl in u.classes:
+        cl.methods["__getattr__"] = missing
+    t = hint_table(u)
+    t["bool"] = u.bool
+    t["str"] = u.str
+    t["B"] = u.B
+    t["Literal['a',1,None]"] = u.g(u.Literal, "a", 1, None)
+    t["Literal['only']"] = u.g(u.Literal, "only")
+    t["Union[Literal['a'],None]"] = u.g(u.Union, t["Literal['only']"], u.NoneType)
+    t["frozenset[int]"] = u.g(u.frozenset, u.int)
+    return u, t
+
+
+MV_HINTS = ["bool", "Union[bool,None]", "Union[None,bool]", "Literal['a',1,None]", "Literal['only']", "Color", "Union[Color,None]", "Union[None,Color]", "Tuple[int,str]", "tuple[int,...]", "Set[int]", "frozenset[int]",
+            "int", "str", "A", "List[int]", "Dict[str,int]", "Union[int,str]", "Union[int,None]", "Union[A,None]", "Union[int,Color]", "Union[Literal['a'],None]", "Callable[[int],A]", "Type[A]"]
+MV_EXPECTED = {"bool": "{true,false}", "Union[bool,None]": "{true,false,null}", "Union[None,bool]": "{true,false,null}", "Literal['a',1,None]": "{a,1,null}", "Literal['only']": "only", "Color": "{red,blue}",
+               "Union[Color,None]": "{red,blue,null}", "Union[None,Color]": "{red,blue,null}", "Tuple[int,str]": "[ITEM,...]", "tuple[int,...]": "[ITEM,...]", "Set[int]": "[ITEM,...]", "frozenset[int]": "[ITEM,...]"}
+
+
+def _set_str(c, a, k):
+    """iter_to_set_str by its contract (its own unit, r2_typehelpers): the distinct items in order, '{a,b}', a single item bare."""
+    items = []
+    for x in (list(a[0]) if not isinstance(a[0], dict) else list(a[0].keys())):
+        if x not in items:
+            items.append(x)
+    return str(items[0]) if len(items) == 1 else "{" + ",".join(str(x) for x in items) + "}"
+
+
+def _hint_snap(h):
+    return (id(h), _snap(h), [(id(x), _snap(x)) if isinstance(x, Rec) else x for x in h.attrs.get("__args__", ())]) if isinstance(h, Rec) else h
+
+
+def mv_setup(ctx):
+    u, t = _universe()
+    hk = MV_HINTS[ctx.choose(len(MV_HINTS), "typehint")]
+    h = t[hk]
+    consts = {**u.consts("bool", "tuple", "set"), "literal_types": {u.Literal}, "tuple_set_origin_types": {u.Tuple, u.tuple, u.Set, u.set, u.frozenset, u.MutableSet}}
+    calls = {**u.calls(), "iter_to_set_str": _set_str}
+    return Setup(env={"typehint": h}, calls=calls, consts=consts, inline={"is_optional": TH + "is_optional", "get_optional_arg": TH + "get_optional_arg", "literal_to_str": TH + "literal_to_str"}, data=dict(hk=hk, h=h, u=u, snap=_hint_snap(h), members=dict(u.Color.attrs["__members__"])))
+
+
+def mv_post(ctx, st, result):
+    d = st.data
+    want = MV_EXPECTED.get(d["hk"])
+    ctx.oblige("post", f"the-metavar-spells-the-accepted-values:bool/Optional[bool]/Literal/Enum/Optional[Enum](None as null;Optional in either member order),[ITEM,...]-for-tuples-and-sets,none-otherwise[{d['hk']}]",
+               result == want if want is not None else result is None, note=repr(result))
+    ctx.oblige("frame", f"help-only:the-hint-and-the-Enum's-members-are-only-read[{d['hk']}]", _hint_snap(d["h"]) == d["snap"] and d["u"].Color.attrs["__members__"] == d["members"])
+
+
+def mv_raises(ctx, st, exc):
+    d = st.data
+    ctx.oblige("raises", f"C12:declaring-an-argument-never-fails-on-the-metavar:no-exception-for-any-supported-hint(got {exc.cls}@{exc.origin})[{d['hk']}]", False)
+
+
+def typehint_metavar_unit(prop):
+    return Unit(prop, TH + "typehint_metavar", mv_setup, mv_post, mv_raises,
+                trusted=["hints are records with __origin__/__args__ compared by identity (r2_typehelpers.U); a class without an attribute raises AttributeError", "get_typehint_origin / is_subclass / iter_to_set_str by contract (their own units); is_optional and literal_to_str interpreted from their real bodies"])
+
+
+XH_HINTS = ["A", "B", "Union[A,None]", "Union[None,A]", "Union[A,int]", "Callable[[int],A]", "Union[None,Callable[[int],A]]", "Union[Callable[[int],A],None]", "Callable[[int],int]", "Callable", "Type[A]",
+            "int", "List[int]", "Union[int,None]", "Color", "Dict[str,int]", "Union[None,Color]"]
+# hint -> the hint whose subclasses are to be listed (None: not a class-typed argument, nothing to list)
+XH_ASKED = {"A": "A", "B": "B", "Union[A,None]": "A", "Union[None,A]": "A", "Union[A,int]": "Union[A,int]", "Callable[[int],A]": "A", "Union[None,Callable[[int],A]]": "A", "Union[Callable[[int],A],None]": "A",
+            "Callable[[int],int]": "int", "Callable": "Callable", "Type[A]": "Type[A]"}
+XH_KNOWN = {"A": 2, "B": 1, "Union[A,int]": 2, "Type[A]": 2, "int": 0, "Callable": 0}
+
+
+def xh_setup(ctx):
+    u, t = _universe()
+    hk = XH_HINTS[ctx.choose(len(XH_HINTS), "typehint")]
+    h = t[hk]
+    paths = [z3.String("class_path1"), z3.String("class_path2")]
+    asked = []
+
+    def is_class_hint(x, all_subtypes=True):
+        if x is u.A or x is u.B:
+            return True
+        if u.origin(x) is u.Union:
+            members = [m is u.A or m is u.B for m in x.attrs["__args__"] if m is not u.NoneType]
+            return all(members) if all_subtypes else any(members)
+        return False
+
+    def subclass_paths(c, a, k):
+        asked.append(a[0])
+        name = [n for n in XH_KNOWN if t[n] is a[0]]
+        return list(paths[:XH_KNOWN[name[0]]]) if name else []
+
+    self = Rec("ActionTypeHint", attrs={"_typehint": h, "dest": "model", "help": "h", "option_strings": ["--model"], "sub_add_kwargs": {"fail_untyped": True}},
+               methods={"is_subclass_typehint": lambda c, s_, a, k: is_class_hint(a[0], k.get("all_subtypes", True)),
+                        "is_callable_typehint": lambda c, s_, a, k: u.origin(a[0]) is u.abcCallable or a[0] is u.Callable or a[0] is u.abcCallable})
+    calls = {**u.calls(), "get_all_subclass_paths": subclass_paths}
+    consts = {**u.consts("type"), "Type": u.Type}
+    return Setup(env={"self": self}, calls=calls, consts=consts,
+                 inline={"is_optional": TH + "is_optional", "get_optional_arg": TH + "get_optional_arg", "get_callable_return_type": TH + "get_callable_return_type"},
+                 data=dict(hk=hk, h=h, u=u, t=t, self_=self, snap=_snap(self), hsnap=_hint_snap(h), paths=paths, asked=asked))
+
+
+def xh_post(ctx, st, result):
+    d = st.data
+    hk = d["hk"]
+    want_asked = XH_ASKED.get(hk)
+    n = XH_KNOWN.get(want_asked, 0) if want_asked else 0
+    ctx.oblige("post", f"the-subclasses-listed-are-those-of-the-class-an-argument-of-this-hint-accepts(Optional in either order;the return class of a callable),asked-once;nothing-is-asked-for-other-hints[{hk}]",
+               (len(d["asked"]) == 1 and d["asked"][0] is d["t"][want_asked]) if want_asked else not d["asked"])
+    want = z3.Concat(S_(", known subclasses: "), d["paths"][0], S_(", "), d["paths"][1]) if n == 2 else (z3.Concat(S_(", known subclasses: "), d["paths"][0]) if n == 1 else S_(""))
+    ctx.oblige("post", f"the-extra-help-is-', known subclasses: '+the-known-class-paths-joined-by-', '(ALL paths);empty-when-there-is-none[{hk}]", _is_text(result) and lift(result) == want, strings=True)
+    ctx.oblige("frame", f"help-only:the-action-and-its-hint-are-only-read[{hk}]", not _changed(d["self_"], d["snap"]) and _hint_snap(d["h"]) == d["hsnap"] and not ctx.mutlog)
+
+
+def xh_raises(ctx, st, exc):
+    ctx.oblige("raises", f"help-only:no-exception-for-any-supported-hint(got {exc.cls}@{exc.origin})[{st.data['hk']}]", False)
+
+
+def extra_help_unit(prop):
+    return Unit(prop, TH + "ActionTypeHint.extra_help", xh_setup, xh_post, xh_raises,
+                trusted=["is_subclass_typehint / is_callable_typehint / get_all_subclass_paths by contract (their own units: any_units, r2_typehelpers)", "get_optional_arg, is_optional, get_callable_return_type interpreted from their real bodies"])
+
+
+# ---------------------------------------------------------------------------------------------- ActionTypeHint.completer (argcomplete)
+CP_HINTS = ["bool", "Union[bool,None]", "Union[None,bool]", "Color", "Union[Color,None]", "Union[None,Color]", "Union[Path,None]", "Union[None,Path]", "int", "A", "List[int]", "Union[int,str]", "Union[int,None]"]
+CP_FIXED = {"bool": ["true", "false"], "Union[bool,None]": ["true", "false", "null"], "Union[None,bool]": ["true", "false", "null"], "Color": ["red", "blue"], "Union[Color,None]": ["red", "blue", "null"],
+            "Union[None,Color]": ["red", "blue", "null"], "Union[Path,None]": ["null", "a.yaml", "b.yaml"], "Union[None,Path]": ["null", "a.yaml", "b.yaml"]}
+CP_CHECK = ["valid", "TypeError", "ValueError", "YAMLError(loader)"]
+
+
+def cpl_setup(ctx):
+    u, t = _universe()
+    t["Union[Path,None]"], t["Union[None,Path]"] = u.g(u.Union, u.Path, u.NoneType), u.g(u.Union, u.NoneType, u.Path)
+    hk = CP_HINTS[ctx.choose(len(CP_HINTS), "typehint")]
+    with_choices = ctx.choose(2, "choices") == 1
+    free = hk not in CP_FIXED and not with_choices
+    comp_type = ["63(?: list completions)", "9(tab)"][ctx.choose(2, "COMP_TYPE")] if free else "9(tab)"
+    check = CP_CHECK[ctx.choose(len(CP_CHECK), "_check_type")] if free and comp_type.startswith("63") else "valid"
+    h = t[hk]
+    prefix = z3.String("prefix")
+    log = []
+    ctx.classes.add("YAMLError", ["Exception"])
+
+    def check_type(c, s_, a, k):
+        log.append(("check", a[0]))
+        if check != "valid":
+            raise PyRaise(ExcVal(check.split("(")[0], ("not valid",), origin="_check_type"))
+        return a[0]
+
+    choices = [z3.Int("choice1"), "b"] if with_choices else None
+    self = Rec("ActionTypeHint", attrs={"_typehint": h, "choices": choices, "dest": "x", "option_strings": ["--x"]}, methods={"_check_type": check_type})
+    type_text = z3.String("type_to_str(hint)")
+    redraw = Rec("what argcomplete_warn_redraw_prompt returned")
+    calls = {**u.calls(), "get_files_completer": lambda c, a, k: Fn(lambda c2, a2, k2: (log.append(("files", tuple(a2), dict(k2))), ["b.yaml", "a.yaml"])[1], "files_completer"),
+             "argcomplete_warn_redraw_prompt": lambda c, a, k: (log.append(("redraw", a[0], a[1])), redraw)[1], "type_to_str": lambda c, a, k: (log.append(("type_to_str", a[0])), type_text)[1],
+             "get_loader_exceptions": lambda c, a, k: (ClassRef("YAMLError"),), "int": lambda c, a, k: int(a[0]), "chr": lambda c, a, k: chr(a[0])}
+    consts = {**u.consts("bool"), "os.environ": {"COMP_TYPE": comp_type.split("(")[0], "COMP_LINE": "prog --x "}}
+    kwargs = {"parsed_args": Rec("Namespace"), "action": self}
+    return Setup(env={"self": self, "prefix": prefix, "kwargs": kwargs}, calls=calls, consts=consts, inline={"is_optional": TH + "is_optional", "get_optional_arg": TH + "get_optional_arg"},
+                 data=dict(hk=hk, with_choices=with_choices, comp_type=comp_type, check=check, h=h, u=u, self_=self, snap=_snap(self), hsnap=_hint_snap(h), prefix=prefix, log=log, choices=list(choices) if choices else None,
+                           type_text=type_text, redraw=redraw, kwargs=kwargs, free=free), watch={"prefix": prefix})
+
+
+def cpl_post(ctx, st, result):
+    d = st.data
+    hk = d["hk"]
+    tag = f"[{hk},choices={d['with_choices']},COMP_TYPE={d['comp_type']},check={d['check']}]"
+    if d["with_choices"]:
+        ok = isinstance(result, list) and len(result) == 2 and result[1] == "b" and is_z3(result[0]) and result[0].sort() == z3.StringSort()
+        ctx.oblige("post", "choices-declared=>exactly-the-choices,as-text,in-order" + tag, ok)
+        if ok:
+            c1 = d["choices"][0]
+            ctx.oblige("post", "choices-declared=>an-integer-choice-is-spelled-as-str()-spells-it" + tag, result[0] == z3.If(c1 >= 0, z3.IntToStr(c1), z3.Concat(S_("-"), z3.IntToStr(-c1))), strings=True)
+    elif hk in CP_FIXED:
+        ctx.oblige("post", "the-completions-are-the-accepted-spellings:true/false,the-Enum's-member-names,null-for-an-Optional(either member order),null+the-sorted-file-completions-for-an-optional-path" + tag,
+                   result == CP_FIXED[hk], note=repr(result))
+        files = [e for e in d["log"] if e[0] == "files"]
+        if "Path" in hk:
+            ctx.oblige("post", "the-file-completer-is-asked-once-about-the-very-prefix-with-the-keywords-given" + tag,
+                       len(files) == 1 and len(files[0][1]) == 1 and files[0][1][0] is d["prefix"] and set(files[0][2]) == set(d["kwargs"]) and all(files[0][2][k] is d["kwargs"][k] for k in d["kwargs"]))
+    elif d["comp_type"].startswith("9"):
+        ctx.oblige("post", "any-other-hint,not-asked-to-list(COMP_TYPE is not '?')=>no-completions,nothing-checked,nothing-printed" + tag, result is None and not d["log"])
+    else:
+        red = [e for e in d["log"] if e[0] == "redraw"]
+        ok = len(red) == 1 and result is d["redraw"] and red[0][1] is d["prefix"]
+        ctx.oblige("post", "any-other-hint,asked-to-list=>one-hint-line-for-the-very-prefix,its-result-returned" + tag, ok)
+        if ok:
+            checked = [e for e in d["log"] if e[0] == "check"]
+            blank = PY_STRIP(d["prefix"]) == S_("")
+            valid = z3.And(z3.Not(blank), z3.BoolVal(d["check"] == "valid"))
+            want = z3.Concat(z3.If(valid, S_("value already valid, "), S_("value not yet valid, ")), S_("expected type "), d["type_text"])
+            ctx.oblige("post", "the-line-says-'value already valid'-exactly-when-the-prefix-is-not-blank-and-passes-the-action's-type-check('not yet valid' otherwise: a failed check is reported, never raised),then-the-expected-type" + tag,
+                       lift(red[0][2]) == want, strings=True)
+            ctx.oblige("post", "only-the-very-prefix-is-checked,at-most-once;the-type-named-is-the-action's-hint" + tag,
+                       len(checked) <= 1 and all(e[1] is d["prefix"] for e in checked) and [e[1] for e in d["log"] if e[0] == "type_to_str"] == [d["h"]])
+    ctx.oblige("frame", "completion-only:the-action,its-hint-and-its-choices-are-only-read" + tag,
+               not _changed(d["self_"], d["snap"]) and _hint_snap(d["h"]) == d["hsnap"] and (d["choices"] is None or all(x is y for x, y in zip(d["self_"].attrs["choices"], d["choices"]))) and not [m for m in ctx.mutlog if m is d["self_"] or m is d["h"]])
+
+
+def cpl_raises(ctx, st, exc):
+    d = st.data
+    ctx.oblige("raises", f"completion-only:no-exception-for-any-supported-hint(got {exc.cls}@{exc.origin})[{d['hk']},choices={d['with_choices']},COMP_TYPE={d['comp_type']},check={d['check']}]", False)
+
+
+def completer_unit(prop):
+    return Unit(prop, TH + "ActionTypeHint.completer", cpl_setup, cpl_post, cpl_raises,
+                trusted=["precondition: called by argcomplete, which sets COMP_TYPE to a character code", "_check_type raises TypeError (its contract, check_type.py) - ValueError and the loader's exceptions are tolerated as well",
+                         "get_files_completer() returns argcomplete's FilesCompleter; argcomplete_warn_redraw_prompt prints the hint line", "type_to_str names the hint (its own unit)"])
+
+
+# ================================================================================================ register_unresolvable_import_paths / hash_item / get_argument_group_class
+def rui_setup(ctx):
+    n_modules = ctx.choose(3, "modules")
+    pre_registered = ctx.choose(2, "table-already-holds-an-entry") == 1
+    mods, objs = [], []
+    for i in range(n_modules):
+        mname = z3.String(f"module{i}.__name__")
+        f_none = Rec("FunctionType", attrs={"__module__": None, "__name__": z3.String(f"m{i}.function.__name__"), "tag": "function, __module__ None"})
+        b_none = Rec("BuiltinFunctionType", attrs={"__module__": None, "__name__": f"builtin{i}", "tag": "builtin function, __module__ None"})
+        f_mod = Rec("FunctionType", attrs={"__module__": "pkg.real", "__name__": "resolvable", "tag": "function with a module"})
+        nameless = Rec("FunctionType", attrs={"__module__": None, "tag": "function without a name"})
+        const = Rec("int", attrs={"tag": "a constant"})
+        inst = Rec("Thing", attrs={"__module__": None, "__name__": "thing", "tag": "an instance that happens to have the attributes"})
+        content = {"f": f_none, "b": b_none, "g": f_mod, "h": nameless, "N": const, "t": inst, "text": "some text"}
+        mod = Rec("module", attrs={"__name__": mname, "__dict__": content})
+        mods.append(mod)
+        objs.append(dict(mod=mod, mname=mname, f_none=f_none, b_none=b_none, others=[f_mod, nameless, const, inst], content=dict(content)))
+    earlier = Rec("FunctionType", attrs={"__module__": None, "__name__": "earlier"})
+    table = {earlier: "lib.earlier"} if pre_registered else {}
+    consts = {"unresolvable_import_paths": table, "BuiltinFunctionType": ClassRef("BuiltinFunctionType"), "FunctionType": ClassRef("FunctionType"), "Type": ClassRef("typing.Type")}
+    return Setup(env={"modules": tuple(mods)}, consts=consts, data=dict(objs=objs, table=table, earlier=earlier, pre=pre_registered, snaps=[(_snap(o["mod"]), [(_snap(v) if isinstance(v, Rec) else v) for v in o["content"].values()]) for o in objs]))
+
+
+def rui_post(ctx, st, result):
+    d = st.data
+    table = d["table"]
+    tag = f"[{len(d['objs'])} modules,pre-registered={d['pre']}]"
+    from pyvc.engine import _undkey
+    keys = [_undkey(k) for k in table]
+    goals = []
+    expected_keys = [d["earlier"]] if d["pre"] else []
+    for o in d["objs"]:
+        f, b = o["f_none"], o["b_none"]
+        named = z3.Length(f.attrs["__name__"]) > 0
+        got_f = [v for k, v in table.items() if _undkey(k) is f]
+        goals.append(z3.If(named, z3.BoolVal(len(got_f) == 1) if not got_f else lift(got_f[0]) == z3.Concat(o["mname"], S_("."), f.attrs["__name__"]), z3.BoolVal(not got_f)))
+        got_b = [v for k, v in table.items() if _undkey(k) is b]
+        goals.append(z3.BoolVal(len(got_b) == 1) if not got_b else lift(got_b[0]) == z3.Concat(o["mname"], S_("."), S_(b.attrs["__name__"])))
+        expected_keys += [f, b]
+    ctx.oblige("post", "C14:every-(builtin)-function-of-the-modules-given-whose-__module__-is-None-and-that-has-a-name-is-registered-under-<module name>.<its name>(ALL names)" + tag, z3.And(*goals) if goals else True, strings=True)
+    ctx.oblige("post", "nothing-else-is-registered:not-an-object-with-a-module,a-nameless-one,a-constant,an-instance" + tag, all(any(k is e for e in expected_keys) for k in keys))
+    ctx.oblige("frame", "earlier-entries-stay;the-modules-and-their-objects-are-only-read" + tag,
+               (not d["pre"] or table.get(d["earlier"]) == "lib.earlier") and all(_snap(o["mod"]) == sn[0] and [(_snap(v) if isinstance(v, Rec) else v) for v in o["content"].values()] == sn[1] and list(o["mod"].attrs["__dict__"]) == list(o["content"]) for o, sn in zip(d["objs"], d["snaps"])))
+
+
+def register_unresolvable_unit(prop):
+    return Unit(prop, UTIL + "register_unresolvable_import_paths", rui_setup, rui_post, _no_exc,
+                trusted=["vars(module) is the module's namespace; type(x) of a function / builtin function is FunctionType / BuiltinFunctionType", "get_import_path consults this table first (its own unit, contracts/import_paths.py)"])
+
+
+HASH = z3.Function("hash", z3.StringSort(), z3.IntSort())
+HI_KINDS = ["str", "int-as-text", "dict", "list", "dict-that-cannot-be-dumped", "list-that-cannot-be-dumped", "unhashable-object", "hashable-object", "None"]
+
+
+def hi_setup(ctx):
+    kind = HI_KINDS[ctx.choose(len(HI_KINDS), "item")]
+    text, dump, rep = z3.String("item"), z3.String("json_compact_dump(item)"), z3.String("repr(item)")
+    obj = Rec("Thing", attrs={"x": 1})
+    item = {"str": text, "int-as-text": text, "dict": {"a": 1}, "list": [1, 2], "dict-that-cannot-be-dumped": {"a": obj}, "list-that-cannot-be-dumped": [obj], "unhashable-object": obj, "hashable-object": obj, "None": None}[kind]
+    log = []
+
+    def hash_(c, a, k):
+        x = a[0]
+        log.append(("hash", x))
+        if _is_text(x):
+            return HASH(lift(x))
+        if x is None:
+            return 7
+        if isinstance(x, (dict, list)) or (x is obj and kind == "unhashable-object"):
+            raise PyRaise(ExcVal("TypeError", ("unhashable type",), origin="hash"))
+        return z3.Int("hash(object)")
+
+    def dump_(c, a, k):
+        log.append(("dump", a[0]))
+        if "cannot-be-dumped" in kind:
+            raise PyRaise(ExcVal("TypeError", ("not JSON serializable",), origin="json_compact_dump"))
+        return dump
+
+    calls = {"hash": hash_, "json_compact_dump": dump_, "repr": lambda c, a, k: (log.append(("repr", a[0])), rep)[1]}
+    return Setup(env={"item": item}, calls=calls, data=dict(kind=kind, item=item, text=text, dump=dump, rep=rep, log=log, copy=(dict(item) if isinstance(item, dict) else list(item) if isinstance(item, list) else None)))
+
+
+def hi_post(ctx, st, result):
+    d = st.data
+    kind = d["kind"]
+    if kind in ("str", "int-as-text"):
+        want = HASH(d["text"])
+    elif kind in ("dict", "list"):
+        want = HASH(d["dump"])
+    elif kind in ("dict-that-cannot-be-dumped", "list-that-cannot-be-dumped", "unhashable-object"):
+        want = HASH(d["rep"])
+    elif kind == "None":
+        want = z3.IntVal(7)
+    else:
+        want = z3.Int("hash(object)")
+    ctx.oblige("post", f"the-key-of-an-item:its-own-hash;for-a-dict/list-the-hash-of-its-compact-dump(equal content, equal key);the-hash-of-its-repr-when-neither-is-possible[{kind}]", is_z3(result) or isinstance(result, int) and lift(result) == want if not is_z3(result) else result == want)
+    ctx.oblige("frame", f"the-item-is-not-modified[{kind}]", d["copy"] is None or (list(d["item"]) == list(d["copy"])) and not ctx.mutlog)
+
+
+def hi_raises(ctx, st, exc):
+    ctx.oblige("raises", f"never-raises:an-item-that-cannot-be-hashed-or-dumped-still-gets-a-key(got {exc.cls}@{exc.origin})[{st.data['kind']}]", False)
+
+
+def hash_item_unit(prop):
+    return Unit(prop, UTIL + "hash_item", hi_setup, hi_post, hi_raises, trusted=["hash() raises TypeError for dict / list / objects without __hash__; repr() never fails for the objects jsonargparse stores", "json_compact_dump raises for content that is not JSON serializable"])
+
+
+GAC = ["parser-class-keeps-add_argument", "overrides-add_argument", "overrides;source-not-available", "overrides;source-does-not-compile", "overrides;source-fails-when-executed"]
+
+
+def gac_setup(ctx):
+    kind = GAC[ctx.choose(len(GAC), "parser-class")]
+    base_add = Rec("function ActionsContainer.add_argument")
+    globs = {"helper": Rec("a global of the parser's module")}
+    own_add = Rec("function MyParser.add_argument", attrs={"__globals__": globs})
+    AC = Rec("class ActionsContainer", attrs={"add_argument": base_add})
+    AG = Rec("class ArgumentGroup", attrs={"__name__": "ArgumentGroup"})
+    pclass = Rec("class MyParser", attrs={"add_argument": base_add if kind == "parser-class-keeps-add_argument" else own_add, "__module__": "app.cli", "__name__": "MyParser"})
+    debug_log = []
+    logger = Rec("Logger", methods={"debug": lambda c, s_, a, k: debug_log.append((tuple(a), dict(k)))})
+    parser = Rec("MyParser", attrs={"__class__": pclass, "logger": logger, "_actions": []})
+    source = z3.String("source-of-add_argument")
+    built = Rec("class _ArgumentGroupAutoSubclass", attrs={"__name__": "_ArgumentGroupAutoSubclass", "__module__": "<ast>"})
+    log = []
+
+    def getsource(c, a, k):
+        log.append(("getsource", a[0]))
+        if kind == "overrides;source-not-available":
+            raise PyRaise(ExcVal("OSError", ("could not get source code",), origin="inspect.getsource"))
+        return source
+
+    def parse(c, a, k):
+        log.append(("parse", a[0]))
+        if kind == "overrides;source-does-not-compile":
+            raise PyRaise(ExcVal("IndentationError", ("unexpected indent",), origin="ast.parse"))
+        return Rec("ast.Module", attrs={"of": a[0]})
+
+    def exec_(c, a, k):
+        log.append(("exec", a[0], a[1]))
+        if kind == "overrides;source-fails-when-executed":
+            raise PyRaise(ExcVal("NameError", ("name used in a decorator is not defined",), origin="exec"))
+        a[1]["_ArgumentGroupAutoSubclass"] = built
+
+    ctx.classes.add("IndentationError", ["SyntaxError"])
+    calls = {"inspect.getsource": getsource, "ast.parse": parse, "compile": lambda c, a, k: Rec("code", attrs={"of": a[0]}), "exec": exec_}
+    consts = {"ActionsContainer": AC, "ArgumentGroup": AG}
+    return Setup(env={"parser": parser}, calls=calls, consts=consts, drop_calls=(),
+                 data=dict(kind=kind, parser=parser, pclass=pclass, AG=AG, AC=AC, built=built, globs=globs, globs0=dict(globs), source=source, log=log, debug_log=debug_log, snap_parser=_snap(parser), snap_pclass=_snap(pclass), snap_AG=_snap(AG), snap_AC=_snap(AC)))
+
+
+def gac_post(ctx, st, result):
+    d = st.data
+    kind = d["kind"]
+    tag = f"[{kind}]"
+    if kind == "overrides-add_argument":
+        ctx.oblige("post", "a-parser-class-with-its-own-add_argument=>a-group-class-built-from-that-method's-source-on-top-of-ArgumentGroup,attributed-to-the-parser-class's-module" + tag,
+                   result is d["built"] and d["built"].attrs.get("__module__") == "app.cli")
+        ex = [e for e in d["log"] if e[0] == "exec"]
+        ps = [e for e in d["log"] if e[0] == "parse"]
+        ok = len(ps) == 1 and len(ex) == 1 and isinstance(ex[0][2], dict) and ex[0][2].get("ArgumentGroup") is d["AG"] and all(ex[0][2].get(k) is v for k, v in d["globs0"].items())
+        ctx.oblige("post", "the-source-is-the-method's-own(prefixed by the class line),executed-once-in-a-copy-of-the-method's-globals-where-ArgumentGroup-is-jsonargparse's" + tag, ok)
+        if ok:
+            ctx.oblige("post", "the-class-line-precedes-the-method's-source,unchanged(ALL sources)" + tag, lift(ps[0][1]) == z3.Concat(S_("class _ArgumentGroupAutoSubclass(ArgumentGroup):\n"), d["source"]), strings=True)
+        ctx.oblige("frame", "the-method's-module-gains-only-the-new-class-under-its-name(so that it can be imported / pickled)" + tag,
+                   set(d["globs"]) == set(d["globs0"]) | {"_ArgumentGroupAutoSubclass"} and d["globs"].get("_ArgumentGroupAutoSubclass") is d["built"] and all(d["globs"][k] is v for k, v in d["globs0"].items()))
+    else:
+        ctx.oblige("post", "otherwise(add_argument not overridden, or the class cannot be built)=>jsonargparse's-ArgumentGroup" + tag, result is d["AG"])
+        ctx.oblige("frame", "then-the-method's-module-is-untouched" + tag, set(d["globs"]) == set(d["globs0"]))
+        if kind != "parser-class-keeps-add_argument":
+            ctx.oblige("post", "a-failure-to-build-the-class-is-logged-at-debug-level-on-the-parser's-logger,once" + tag, len(d["debug_log"]) == 1)
+    ctx.oblige("frame", "the-parser,its-class,ArgumentGroup-and-ActionsContainer-are-only-read" + tag,
+               not _changed(d["parser"], d["snap_parser"]) and not _changed(d["pclass"], d["snap_pclass"]) and not _changed(d["AG"], d["snap_AG"]) and not _changed(d["AC"], d["snap_AC"]))
+
+
+def gac_raises(ctx, st, exc):
+    ctx.oblige("raises", f"C09:building-a-parser-never-fails-on-the-group-class:any-failure-falls-back-to-ArgumentGroup(got {exc.cls}@{exc.origin})[{st.data['kind']}]", False)
+
+
+def argument_group_class_unit(prop):
+    return Unit(prop, UTIL + "get_argument_group_class", gac_setup, gac_post, gac_raises,
+                trusted=["inspect.getsource raises OSError / TypeError when there is no source; ast.parse / compile / exec raise on bad source", "exec(code, namespace) binds the class defined by the source in the namespace given"])
+
+
+# ================================================================================================ DefaultHelpFormatter._format_usage
+FU_USAGE = {"one-line": "usage: app [-h] [--lr LR] [--model.depth DEPTH] [--opt OPT] pos\n\n", "two-lines": "usage: app [-h] [--lr LR]\n           [--model.depth DEPTH] [--opt OPT] pos\n\n",
+            "two-lines(no indent)": "usage: app [-h] [--lr LR] [--model.depth DEPTH] [--opt OPT]\npos\n\n"}
+FU_DEFAULTS = ["None", "a-value", "NSKeyError"]
+FU_CTX = ["no-parser-in-context", "feature-off", "feature-on"]
+FU_NOTE = "note: extra positionals are parsed as optionals in the order shown above."
+
+
+def fu_setup(ctx):
+    where = FU_CTX[ctx.choose(len(FU_CTX), "context")]
+    uk = sorted(FU_USAGE)[ctx.choose(len(FU_USAGE), "argparse-usage")]
+    n = ctx.choose(3, "optionals-usable-as-positionals") if where == "feature-on" else 0
+    usage = FU_USAGE[uk]
+    dests = [z3.String("dest1"), z3.String("dest2")][:n]
+    lr_default = FU_DEFAULTS[ctx.choose(3, "default-of-the-required-lr")] if where == "feature-off" else "None"
+    defaults = {"lr": lr_default, "model.depth": "None", "opt": "a-value", "pos": "None"}
+    actions = [Rec("ActionTypeHint", attrs={"dest": dname, "option_strings": ["--x"], "nargs": None}) for dname in dests]
+    log = []
+    def get_default(c, s_, a, k):
+        log.append(("get_default", a[0]))
+        what = defaults.get(a[0], "NSKeyError")
+        if what == "NSKeyError":
+            raise PyRaise(ExcVal("NSKeyError", (a[0],), origin="get_default"))
+        return None if what == "None" else 5
+
+    ctx.classes.add("NSKeyError", ["KeyError"])
+    parser = Rec("ArgumentParser", attrs={"_actions": list(actions), "_subcommands_action": None, "prog": "app", "required_args": {"lr", "model.depth", "pos"}}, methods={"get_default": get_default}) if where != "no-parser-in-context" else None
+    width = z3.Int("width")
+    self = Rec("DefaultHelpFormatter", attrs={"_width": width, "_current_indent": 0, "_prog": "app"})
+    import re as _re
+
+    def base_usage(c, s_, a, k):
+        log.append(("argparse-usage", tuple(a), dict(k)))
+        return usage
+
+    calls = {"super": lambda c, a, k: Rec("super()", methods={"_format_usage": base_usage}), "parent_parser.get": lambda c, a, k: parser,
+             "supports_optionals_as_positionals": lambda c, a, k: (log.append(("supports", a[0])), where == "feature-on")[1],
+             "get_optionals_as_positionals_actions": lambda c, a, k: (log.append(("actions-of", a[0], dict(k))), list(actions))[1], "re.sub": lambda c, a, k: _re.sub(*a, **k)}
+    args = (z3.String("usage-arg"), Rec("actions"), Rec("groups"))
+    kwargs = {"prefix": None}
+    return Setup(env={"self": self, "args": args, "kwargs": kwargs}, calls=calls,
+                 data=dict(where=where, uk=uk, n=n, usage=usage, defaults=defaults, lr_default=lr_default, dests=dests, actions=actions, parser=parser, width=width, self_=self, log=log, args=args, kwargs=kwargs, snap_self=_snap(self),
+                           snap_parser=_snap(parser) if parser else None, snap_actions=[_snap(a) for a in actions]), watch={"width": width})
+
+
+def fu_post(ctx, st, result):
+    d = st.data
+    tag = f"[{d['where']},{d['uk']},{d['n']} actions" + (f",lr-default={d['lr_default']}]" if d["where"] == "feature-off" else "]")
+    base = [e for e in d["log"] if e[0] == "argparse-usage"]
+    ctx.oblige("post", "argparse-renders-the-usage-once,with-exactly-the-arguments-given" + tag,
+               len(base) == 1 and len(base[0][1]) == 3 and all(x is y for x, y in zip(base[0][1], d["args"])) and set(base[0][2]) == {"prefix"} and base[0][2]["prefix"] is None)
+    if d["where"] == "feature-off":
+        want = d["usage"]
+        for key in ("lr", "model.depth", "pos"):  # the parser's required arguments
+            i = want.find(f"[--{key} ")
+            if d["defaults"][key] != "a-value" and i >= 0:
+                j = want.find("]", i)
+                want = want[:i] + want[i + 1:j] + want[j + 1:]
+        ctx.oblige("post", "a-required-option-without-a-default-is-shown-without-the-optional-brackets;every-other-option(with a default,not required)-keeps-them;the-rest-of-the-usage-is-unchanged" + tag, result == want, note=repr(result))
+    elif d["n"] == 0:
+        ctx.oblige("post", "no-parser-in-context/no-such-option=>argparse's-usage,unchanged" + tag, result == d["usage"])
+    else:
+        extra = z3.Concat(S_("["), d["dests"][0], S_("]")) if d["n"] == 1 else z3.Concat(S_("["), d["dests"][0], S_(" ["), d["dests"][1], S_("]]"))
+        lines = d["usage"].rstrip().split("\n")
+        tail = S_(f"\n\n{FU_NOTE}\n\n")
+        head = "\n".join(lines[:-1]) + ("\n" if len(lines) > 1 else "")
+        same_line = z3.Concat(S_(head + lines[-1] + " "), extra, tail)
+        indent = lines[-1][:len(lines[-1]) - len(lines[-1].lstrip(" "))] if lines[-1].startswith(" ") else lines[-1]
+        next_line = z3.Concat(S_(head + lines[-1] + "\n" + indent), extra, tail)
+        fits = z3.Length(z3.Concat(S_(lines[-1] + " "), extra)) <= d["width"]
+        want = same_line if len(lines) == 1 else z3.If(fits, same_line, next_line)
+        ctx.oblige("post", "the-options-usable-as-positionals-are-appended-in-declaration-order-as-nested-optionals[a [b]](ALL names),on-the-last-usage-line-when-it-fits-the-width(ALL widths)-else-on-a-line-of-their-own-with-that-line's-indent,followed-by-the-note" + tag,
+                   _is_text(result) and lift(result) == want, strings=True)
+        asked = [e for e in d["log"] if e[0] == "actions-of"]
+        ctx.oblige("post", "the-options-are-those-of-the-parser-in-context(positionals not repeated)" + tag, len(asked) == 1 and asked[0][1] is d["parser"] and not asked[0][2].get("include_positionals", False))
+    ctx.oblige("frame", "C09:help-leaves-no-trace:the-formatter,the-parser-and-its-actions-are-only-read" + tag,
+               not _changed(d["self_"], d["snap_self"]) and (d["parser"] is None or not _changed(d["parser"], d["snap_parser"])) and all(not _changed(a, sn) for a, sn in zip(d["actions"], d["snap_actions"])))
+
+
+def format_usage_unit(prop):
+    return Unit(prop, FMT + "DefaultHelpFormatter._format_usage", fu_setup, fu_post, _no_exc, max_paths=2000,
+                trusted=["argparse.HelpFormatter._format_usage (super()) renders the usage text (three concrete layouts: one line, wrapped with indent, wrapped without indent)",
+                         "supports_optionals_as_positionals / get_optionals_as_positionals_actions by contract (the parsing setting; the parser's plain options in declaration order)", "re.sub evaluated by CPython on the concrete usage text", "parser.get_default(key): the default, None, or NSKeyError (its own unit, defaults_units)"])
+
+
 def units(prop):
-    return [class_from_function_unit(prop), class_from_function_new_unit(prop), capture_parser_unit(prop), return_parser_if_captured_unit(prop), capture_exception_unit(prop), logger_property_unit(prop)]
+    return [class_from_function_unit(prop), class_from_function_new_unit(prop), capture_parser_unit(prop), return_parser_if_captured_unit(prop), capture_exception_unit(prop), logger_property_unit(prop), parse_logger_unit(prop), setup_default_logger_unit(prop), logger_property_init_unit(prop), warning_unit(prop), typehint_metavar_unit(prop), extra_help_unit(prop), completer_unit(prop), register_unresolvable_unit(prop), hash_item_unit(prop), argument_group_class_unit(prop), format_usage_unit(prop)]
 
 
-CARRIES = {}
+CARRIES = {
+    "C14": ["class_from_function", "class_from_function.<locals>.__new__", "register_unresolvable_import_paths"],
+    "C12": ["capture_parser", "return_parser_if_captured", "CaptureParserException.__init__", "typehint_metavar", "hash_item"],
+    "C09": ["capture_parser", "LoggerProperty.logger[setter+getter]", "parse_logger", "setup_default_logger", "LoggerProperty.__init__", "get_argument_group_class", "DefaultHelpFormatter._format_usage",
+            "ActionTypeHint.extra_help", "ActionTypeHint.completer"],
+    "C03": [":warning"],
+}
